@@ -267,7 +267,7 @@ func run(prop, tier, funcFilter string, verbose bool) (*report, error) {
 			} else {
 				r.Res = vc.Solve(r.File, secs, true)
 			}
-			if _, isKnown := knownOpen[o.Name]; (r.Res.Status == "unknown" || r.Res.Status == "timeout" || r.Res.Status == "error") && !o.Cover && !(isKnown && tier != "thorough") {
+			if _, isKnown := knownOpen[o.Name]; (r.Res.Status == "unknown" || r.Res.Status == "timeout" || r.Res.Status == "error") && !o.Cover && !(isKnown && tier != "thorough") && o.Relax == "" {
 				// retry policy: once more with a longer limit
 				r2 := vc.Solve(r.File, secs*2, false)
 				r2.Tried = append(r.Res.Tried, r2.Tried...)
